@@ -16,7 +16,11 @@ Main theorems:
 * `no_panic` — `Pop` never indexes an empty q/Q stack on an accepted sequence;
 * `closing_balances` — for every accepted sequence, the operators returned by
   `ClosingOperators` are all accepted by `ApplyOperator`, the nesting is empty afterwards, and
-  `CanClose` succeeds (unless the stream is a Type 3 glyph still waiting for `d0`/`d1`).
+  `CanClose` succeeds (unless the stream is a Type 3 glyph still waiting for `d0`/`d1`);
+* `ver_run_nested`, `ver_closed_nested` — with `Version > 0` (the Builder; D-C15-5) an accepted
+  sequence is properly nested: replayed on an ordinary stack of open pairs (`nested`, defined
+  without `State`) every closer finds its own opener on top; followed by `ClosingOperators`
+  nothing stays open.  With `Version = 0` (readers) cross-nested pairs are tolerated as before.
 -/
 namespace PdfVerif.C15cntb
 open PdfVerif PdfVerif.CNT
@@ -103,7 +107,7 @@ structure Inv (s : St) : Prop where
   objs : s.obj = 1 ∨ s.obj = 2 ∨ s.obj = 4 ∨ s.obj = 8 ∨ s.obj = 16
 
 /-- `NewState` establishes the invariant for every content type and version -/
-theorem init_inv (ct : Nat) (strict : Bool) : Inv (initSt ct strict) := by
+theorem init_inv (ct : Nat) (strict ver : Bool) : Inv (initSt ct strict ver) := by
   by_cases h : ct = 5 <;> constructor <;>
     simp [initSt, h, Gen.content_ObjType3Start, Gen.content_ObjPage]
 
@@ -216,14 +220,47 @@ theorem count_erase_self (n : List Nat) (a : Nat) : (n.erase a).count a = n.coun
     · have h1 : (x == a) = false := by simpa using hx
       simp [List.erase_cons, h1, List.count_cons, ih]
 
-theorem popNesting_some (n n' : List Nat) (k : Nat) (h : popNesting n k = some n') :
+/-- a successful `popNesting` — tolerant or strict — removes the innermost frame of the kind -/
+theorem popNesting_some (v : Bool) (n n' : List Nat) (k : Nat) (h : popNesting v n k = some n') :
     k ∈ n ∧ n' = n.erase k := by
   unfold popNesting at h
-  split at h
-  · rename_i hc
-    simp at h hc
-    exact ⟨hc, h.symm⟩
-  · simp at h
+  cases v with
+  | true =>
+    simp only [if_true] at h
+    cases n with
+    | nil => simp at h
+    | cons a rest =>
+      simp only [] at h
+      split at h
+      · rename_i hak
+        simp at hak h
+        subst hak h
+        simp
+      · simp at h
+  | false =>
+    simp only [Bool.false_eq_true, if_false] at h
+    split at h
+    · rename_i hc
+      simp at h hc
+      exact ⟨hc, h.symm⟩
+    · simp at h
+
+/-- the frame on top is popped in both modes -/
+theorem popNesting_head (v : Bool) (k : Nat) (rest : List Nat) : popNesting v (k :: rest) k = some rest := by
+  cases v <;> simp [popNesting]
+
+/-- with `Version > 0` only the frame on top is popped -/
+theorem popNesting_ver (n n' : List Nat) (k : Nat) (h : popNesting true n k = some n') : n = k :: n' := by
+  cases n with
+  | nil => simp [popNesting] at h
+  | cons a rest =>
+    simp only [popNesting, if_true] at h
+    split at h
+    · rename_i hak
+      simp at hak h
+      subst hak h
+      rfl
+    · simp at h
 
 
 /-- **One accepted operator preserves the invariant.** -/
@@ -273,11 +310,11 @@ theorem step_inv (s s' : St) (name : Bytes) (args : List Obj) (hinv : Inv s)
       split at hsw
       · simp at hsw
       · rename_i hstr
-        cases hpop : popNesting s0.nesting Gen.content_pairQ with
+        cases hpop : popNesting s0.ver s0.nesting Gen.content_pairQ with
         | none => simp [hpop] at hsw
         | some n' =>
           simp only [hpop] at hsw
-          obtain ⟨hc, hn'⟩ := popNesting_some _ _ _ hpop
+          obtain ⟨hc, hn'⟩ := popNesting_some _ _ _ _ hpop
           subst hn'
           split at hsw
           · simp at hsw
@@ -335,11 +372,11 @@ theorem step_inv (s s' : St) (name : Bytes) (args : List Obj) (hinv : Inv s)
         show (Gen.content_OpTextEnd == Gen.content_OpPopGraphicsState) = false by decide,
         show (Gen.content_OpTextEnd == Gen.content_OpTextBegin) = false by decide,
         beq_self_eq_true, if_true, Bool.false_eq_true, if_false] at hsw
-      cases hpop : popNesting s0.nesting Gen.content_pairBT with
+      cases hpop : popNesting s0.ver s0.nesting Gen.content_pairBT with
       | none => simp [hpop] at hsw
       | some n' =>
         simp only [hpop] at hsw
-        obtain ⟨hc, hn'⟩ := popNesting_some _ _ _ hpop
+        obtain ⟨hc, hn'⟩ := popNesting_some _ _ _ _ hpop
         subst hn'
         simp at hsw
         subst hsw
@@ -430,11 +467,11 @@ theorem step_inv (s s' : St) (name : Bytes) (args : List Obj) (hinv : Inv s)
         show (Gen.content_OpEndMarkedContent == Gen.content_OpBeginMarkedContent) = false by decide,
         show (Gen.content_OpEndMarkedContent == Gen.content_OpBeginMarkedContentWithProperties) = false by decide,
         beq_self_eq_true, if_true, Bool.false_eq_true, if_false, Bool.or_self] at hsw
-      cases hpop : popNesting s0.nesting Gen.content_pairBMC with
+      cases hpop : popNesting s0.ver s0.nesting Gen.content_pairBMC with
       | none => simp [hpop] at hsw
       | some n' =>
         simp only [hpop] at hsw
-        obtain ⟨hc, hn'⟩ := popNesting_some _ _ _ hpop
+        obtain ⟨hc, hn'⟩ := popNesting_some _ _ _ _ hpop
         subst hn'
         simp at hsw
         subst hsw
@@ -498,11 +535,11 @@ theorem step_inv (s s' : St) (name : Bytes) (args : List Obj) (hinv : Inv s)
         show (Gen.content_OpEndCompatibility == Gen.content_OpEndMarkedContent) = false by decide,
         show (Gen.content_OpEndCompatibility == Gen.content_OpBeginCompatibility) = false by decide,
         beq_self_eq_true, if_true, Bool.false_eq_true, if_false, Bool.or_self] at hsw
-      cases hpop : popNesting s0.nesting Gen.content_pairBX with
+      cases hpop : popNesting s0.ver s0.nesting Gen.content_pairBX with
       | none => simp [hpop] at hsw
       | some n' =>
         simp only [hpop] at hsw
-        obtain ⟨hc, hn'⟩ := popNesting_some _ _ _ hpop
+        obtain ⟨hc, hn'⟩ := popNesting_some _ _ _ _ hpop
         subst hn'
         simp at hsw
         subst hsw
@@ -625,13 +662,13 @@ theorem applySwitch_panic (s : St) (name : Bytes) (args : List Obj)
         beq_self_eq_true, if_true, Bool.false_eq_true, if_false] at h
       split at h
       · simp at h
-      · cases hpop : popNesting s.nesting Gen.content_pairQ with
+      · cases hpop : popNesting s.ver s.nesting Gen.content_pairQ with
         | none => simp [hpop] at h
         | some n' =>
           simp only [hpop] at h
           split at h
           · rename_i hs
-            exact ⟨hs, (popNesting_some _ _ _ hpop).1⟩
+            exact ⟨hs, (popNesting_some _ _ _ _ hpop).1⟩
           · simp at h
     · subst hBT
       simp only [applySwitch, show (Gen.content_OpTextBegin == Gen.content_OpPushGraphicsState) = false by decide,
@@ -767,7 +804,7 @@ theorem apply_Q (s : St) (sv : Saved) (below : List Saved) (rest : List Nat)
     simp [Gen.content_ObjText]; intro h; simpa [h] using h2
   have hstroke : isStrokeOp Gen.content_OpPopGraphicsState = false := by decide +kernel
   simp [applyOperator, opInfo_Q, hallow, hstroke, andNot_zero, applyStateChanges, applySwitch, hstr, hn, hs,
-    popNesting, applyParams, Gen.content_pairQ,
+    popNesting_head, applyParams, Gen.content_pairQ,
     show (Gen.content_OpPopGraphicsState == Gen.content_OpPushGraphicsState) = false by decide,
     show (Gen.content_OpPopGraphicsState == Gen.content_OpSetLineDash) = false by decide]
 
@@ -776,7 +813,7 @@ theorem apply_ET (s : St) (rest : List Nat) (h1 : s.obj = 4) (hn : s.nesting = 2
       .ok { s with nesting := rest, obj := 1, usable := andNot s.usable Gen.gfx_StateTextMatrix } := by
   have hstroke : isStrokeOp Gen.content_OpTextEnd = false := by decide +kernel
   simp [applyOperator, opInfo_ET, h1, hstroke, andNot_zero, applyStateChanges, applySwitch, hn,
-    popNesting, applyParams, Gen.content_pairBT, Gen.content_ObjPage,
+    popNesting_head, applyParams, Gen.content_pairBT, Gen.content_ObjPage,
     show (Gen.content_OpTextEnd == Gen.content_OpPushGraphicsState) = false by decide,
     show (Gen.content_OpTextEnd == Gen.content_OpPopGraphicsState) = false by decide,
     show (Gen.content_OpTextEnd == Gen.content_OpTextBegin) = false by decide,
@@ -787,7 +824,7 @@ theorem apply_EMC (s : St) (rest : List Nat) (h1 : s.obj = 1 ∨ s.obj = 4) (hn 
   have hallow : ¬ (s.obj &&& 5 = 0) := by rcases h1 with h | h <;> simp [h]
   have hstroke : isStrokeOp Gen.content_OpEndMarkedContent = false := by decide +kernel
   simp [applyOperator, opInfo_EMC, hallow, hstroke, andNot_zero, applyStateChanges, applySwitch, hn,
-    popNesting, applyParams, Gen.content_pairBMC,
+    popNesting_head, applyParams, Gen.content_pairBMC,
     show (Gen.content_OpEndMarkedContent == Gen.content_OpPushGraphicsState) = false by decide,
     show (Gen.content_OpEndMarkedContent == Gen.content_OpPopGraphicsState) = false by decide,
     show (Gen.content_OpEndMarkedContent == Gen.content_OpTextBegin) = false by decide,
@@ -801,7 +838,7 @@ theorem apply_EX (s : St) (rest : List Nat) (h1 : s.obj = 1 ∨ s.obj = 4 ∨ s.
   have hallow : ¬ (s.obj &&& 31 = 0) := by rcases h1 with h | h | h <;> simp [h]
   have hstroke : isStrokeOp Gen.content_OpEndCompatibility = false := by decide +kernel
   simp [applyOperator, opInfo_EX, hallow, hstroke, andNot_zero, applyStateChanges, applySwitch, hn,
-    popNesting, applyParams, Gen.content_pairBX,
+    popNesting_head, applyParams, Gen.content_pairBX,
     show (Gen.content_OpEndCompatibility == Gen.content_OpPushGraphicsState) = false by decide,
     show (Gen.content_OpEndCompatibility == Gen.content_OpPopGraphicsState) = false by decide,
     show (Gen.content_OpEndCompatibility == Gen.content_OpTextBegin) = false by decide,
@@ -975,20 +1012,286 @@ theorem closing_balances (s0 s : St) (ops : List (Bytes × List Obj)) (h0 : Inv 
     rw [hcl]
     exact hr
 
+/-! ## nesting discipline with `Version > 0` (the Builder): pairs are properly nested -/
+
+/-- the pair an operator opens -/
+def openerOf (name : Bytes) : Option Nat :=
+  if name == Gen.content_OpPushGraphicsState then some Gen.content_pairQ
+  else if name == Gen.content_OpTextBegin then some Gen.content_pairBT
+  else if name == Gen.content_OpBeginMarkedContent || name == Gen.content_OpBeginMarkedContentWithProperties then
+    some Gen.content_pairBMC
+  else if name == Gen.content_OpBeginCompatibility then some Gen.content_pairBX
+  else none
+
+/-- the pair an operator closes -/
+def closedBy (name : Bytes) : Option Nat :=
+  if name == Gen.content_OpPopGraphicsState then some Gen.content_pairQ
+  else if name == Gen.content_OpTextEnd then some Gen.content_pairBT
+  else if name == Gen.content_OpEndMarkedContent then some Gen.content_pairBMC
+  else if name == Gen.content_OpEndCompatibility then some Gen.content_pairBX
+  else none
+
+/-- one operator on an ordinary stack of open pairs (innermost first), written without reference
+to `State`: an opener pushes its kind, a closer must find its own kind **on top** -/
+def nestStep (stk : List Nat) (name : Bytes) : Option (List Nat) :=
+  match openerOf name with
+  | some k => some (k :: stk)
+  | none =>
+    match closedBy name with
+    | some k =>
+      (match stk with
+       | k' :: rest => if k' == k then some rest else none
+       | [] => none)
+    | none => some stk
+
+/-- proper nesting of a whole sequence, from the open pairs `stk` -/
+def nested : List Nat → List (Bytes × List Obj) → Option (List Nat)
+  | stk, [] => some stk
+  | stk, (n, _) :: rest =>
+    match nestStep stk n with
+    | some stk' => nested stk' rest
+    | none => none
+
+theorem applySwitch_other_ver (s s1 : St) (name : Bytes) (args : List Obj) (h : structural name = false)
+    (hs : applySwitch s name args = .ok s1) : s1.ver = s.ver := by
+  simp only [structural, Bool.or_eq_false_iff] at h
+  obtain ⟨⟨⟨⟨⟨⟨⟨⟨h1, h2⟩, h3⟩, h4⟩, h5⟩, h6⟩, h7⟩, h8⟩, h9⟩ := h
+  simp only [applySwitch, h1, h2, h3, h4, h5, h6, h7, h8, h9, Bool.false_eq_true, if_false, Bool.or_false] at hs
+  repeat' (split at hs)
+  all_goals (simp at hs; subst hs; simp)
+
+theorem applyParams_ver (s : St) (name : Bytes) (args : List Obj) : (applyParams s name args).ver = s.ver := by
+  unfold applyParams
+  repeat' split
+  all_goals simp
+
+/-- what `ApplyStateChanges`' switch does to the nesting stack when `Version > 0` -/
+theorem applySwitch_nest (s s1 : St) (name : Bytes) (args : List Obj) (hv : s.ver = true)
+    (h : applySwitch s name args = .ok s1) : nestStep s.nesting name = some s1.nesting ∧ s1.ver = true := by
+  by_cases hst : structural name = true
+  · simp only [structural, Bool.or_eq_true, beq_iff_eq] at hst
+    rcases hst with (((((((hq | hQ) | hBT) | hET) | hBMC) | hBDC) | hEMC) | hBX) | hEX
+    · subst hq
+      simp only [applySwitch, beq_self_eq_true, if_true] at h
+      repeat' (split at h)
+      all_goals (simp at h)
+      subst h
+      exact ⟨by simp [nestStep, show openerOf Gen.content_OpPushGraphicsState = some Gen.content_pairQ from by decide], hv⟩
+    · subst hQ
+      simp only [applySwitch, show (Gen.content_OpPopGraphicsState == Gen.content_OpPushGraphicsState) = false by decide,
+        beq_self_eq_true, if_true, Bool.false_eq_true, if_false] at h
+      split at h
+      · simp at h
+      · cases hpop : popNesting s.ver s.nesting Gen.content_pairQ with
+        | none => simp [hpop] at h
+        | some n' =>
+          simp only [hpop] at h
+          rw [hv] at hpop
+          have hn := popNesting_ver _ _ _ hpop
+          split at h
+          · simp at h
+          · simp at h
+            subst h
+            exact ⟨by simp [nestStep, hn, show openerOf Gen.content_OpPopGraphicsState = none from by decide,
+              show closedBy Gen.content_OpPopGraphicsState = some Gen.content_pairQ from by decide], hv⟩
+    · subst hBT
+      simp only [applySwitch, show (Gen.content_OpTextBegin == Gen.content_OpPushGraphicsState) = false by decide,
+        show (Gen.content_OpTextBegin == Gen.content_OpPopGraphicsState) = false by decide,
+        beq_self_eq_true, if_true, Bool.false_eq_true, if_false] at h
+      split at h
+      · simp at h
+      · simp at h
+        subst h
+        exact ⟨by simp [nestStep, show openerOf Gen.content_OpTextBegin = some Gen.content_pairBT from by decide], hv⟩
+    · subst hET
+      simp only [applySwitch, show (Gen.content_OpTextEnd == Gen.content_OpPushGraphicsState) = false by decide,
+        show (Gen.content_OpTextEnd == Gen.content_OpPopGraphicsState) = false by decide,
+        show (Gen.content_OpTextEnd == Gen.content_OpTextBegin) = false by decide,
+        beq_self_eq_true, if_true, Bool.false_eq_true, if_false] at h
+      cases hpop : popNesting s.ver s.nesting Gen.content_pairBT with
+      | none => simp [hpop] at h
+      | some n' =>
+        simp only [hpop] at h
+        rw [hv] at hpop
+        have hn := popNesting_ver _ _ _ hpop
+        simp at h
+        subst h
+        exact ⟨by simp [nestStep, hn, show openerOf Gen.content_OpTextEnd = none from by decide,
+          show closedBy Gen.content_OpTextEnd = some Gen.content_pairBT from by decide], hv⟩
+    · subst hBMC
+      simp [applySwitch, show (Gen.content_OpBeginMarkedContent == Gen.content_OpPushGraphicsState) = false by decide,
+        show (Gen.content_OpBeginMarkedContent == Gen.content_OpPopGraphicsState) = false by decide,
+        show (Gen.content_OpBeginMarkedContent == Gen.content_OpTextBegin) = false by decide,
+        show (Gen.content_OpBeginMarkedContent == Gen.content_OpTextEnd) = false by decide] at h
+      subst h
+      exact ⟨by simp [nestStep, show openerOf Gen.content_OpBeginMarkedContent = some Gen.content_pairBMC from by decide], hv⟩
+    · subst hBDC
+      simp [applySwitch, show (Gen.content_OpBeginMarkedContentWithProperties == Gen.content_OpPushGraphicsState) = false by decide,
+        show (Gen.content_OpBeginMarkedContentWithProperties == Gen.content_OpPopGraphicsState) = false by decide,
+        show (Gen.content_OpBeginMarkedContentWithProperties == Gen.content_OpTextBegin) = false by decide,
+        show (Gen.content_OpBeginMarkedContentWithProperties == Gen.content_OpTextEnd) = false by decide] at h
+      subst h
+      exact ⟨by simp [nestStep, show openerOf Gen.content_OpBeginMarkedContentWithProperties = some Gen.content_pairBMC from by decide], hv⟩
+    · subst hEMC
+      simp only [applySwitch, show (Gen.content_OpEndMarkedContent == Gen.content_OpPushGraphicsState) = false by decide,
+        show (Gen.content_OpEndMarkedContent == Gen.content_OpPopGraphicsState) = false by decide,
+        show (Gen.content_OpEndMarkedContent == Gen.content_OpTextBegin) = false by decide,
+        show (Gen.content_OpEndMarkedContent == Gen.content_OpTextEnd) = false by decide,
+        show (Gen.content_OpEndMarkedContent == Gen.content_OpBeginMarkedContent) = false by decide,
+        show (Gen.content_OpEndMarkedContent == Gen.content_OpBeginMarkedContentWithProperties) = false by decide,
+        beq_self_eq_true, if_true, Bool.false_eq_true, if_false, Bool.or_self] at h
+      cases hpop : popNesting s.ver s.nesting Gen.content_pairBMC with
+      | none => simp [hpop] at h
+      | some n' =>
+        simp only [hpop] at h
+        rw [hv] at hpop
+        have hn := popNesting_ver _ _ _ hpop
+        simp at h
+        subst h
+        exact ⟨by simp [nestStep, hn, show openerOf Gen.content_OpEndMarkedContent = none from by decide,
+          show closedBy Gen.content_OpEndMarkedContent = some Gen.content_pairBMC from by decide], hv⟩
+    · subst hBX
+      simp [applySwitch, show (Gen.content_OpBeginCompatibility == Gen.content_OpPushGraphicsState) = false by decide,
+        show (Gen.content_OpBeginCompatibility == Gen.content_OpPopGraphicsState) = false by decide,
+        show (Gen.content_OpBeginCompatibility == Gen.content_OpTextBegin) = false by decide,
+        show (Gen.content_OpBeginCompatibility == Gen.content_OpTextEnd) = false by decide,
+        show (Gen.content_OpBeginCompatibility == Gen.content_OpBeginMarkedContent) = false by decide,
+        show (Gen.content_OpBeginCompatibility == Gen.content_OpBeginMarkedContentWithProperties) = false by decide,
+        show (Gen.content_OpBeginCompatibility == Gen.content_OpEndMarkedContent) = false by decide] at h
+      subst h
+      exact ⟨by simp [nestStep, show openerOf Gen.content_OpBeginCompatibility = some Gen.content_pairBX from by decide], hv⟩
+    · subst hEX
+      simp only [applySwitch, show (Gen.content_OpEndCompatibility == Gen.content_OpPushGraphicsState) = false by decide,
+        show (Gen.content_OpEndCompatibility == Gen.content_OpPopGraphicsState) = false by decide,
+        show (Gen.content_OpEndCompatibility == Gen.content_OpTextBegin) = false by decide,
+        show (Gen.content_OpEndCompatibility == Gen.content_OpTextEnd) = false by decide,
+        show (Gen.content_OpEndCompatibility == Gen.content_OpBeginMarkedContent) = false by decide,
+        show (Gen.content_OpEndCompatibility == Gen.content_OpBeginMarkedContentWithProperties) = false by decide,
+        show (Gen.content_OpEndCompatibility == Gen.content_OpEndMarkedContent) = false by decide,
+        show (Gen.content_OpEndCompatibility == Gen.content_OpBeginCompatibility) = false by decide,
+        beq_self_eq_true, if_true, Bool.false_eq_true, if_false, Bool.or_self] at h
+      cases hpop : popNesting s.ver s.nesting Gen.content_pairBX with
+      | none => simp [hpop] at h
+      | some n' =>
+        simp only [hpop] at h
+        rw [hv] at hpop
+        have hn := popNesting_ver _ _ _ hpop
+        simp at h
+        subst h
+        exact ⟨by simp [nestStep, hn, show openerOf Gen.content_OpEndCompatibility = none from by decide,
+          show closedBy Gen.content_OpEndCompatibility = some Gen.content_pairBX from by decide], hv⟩
+  · have hst' : structural name = false := by simpa using hst
+    have h1 := applySwitch_other s s1 name args hst' h
+    have h2 := applySwitch_other_ver s s1 name args hst' h
+    simp only [structural, Bool.or_eq_false_iff] at hst'
+    obtain ⟨⟨⟨⟨⟨⟨⟨⟨g1, g2⟩, g3⟩, g4⟩, g5⟩, g6⟩, g7⟩, g8⟩, g9⟩ := hst'
+    refine ⟨?_, by rw [h2, hv]⟩
+    simp [nestStep, openerOf, closedBy, g1, g2, g3, g4, g5, g6, g7, g8, g9, h1.2.1]
+
+/-- one accepted operator with `Version > 0` is one step of the ordinary stack discipline -/
+theorem step_nested (s s' : St) (name : Bytes) (args : List Obj) (hv : s.ver = true)
+    (h : applyOperator s name args = .ok s') : nestStep s.nesting name = some s'.nesting ∧ s'.ver = true := by
+  have key : ∀ s0 : St, s0.nesting = s.nesting → s0.ver = true →
+      applyStateChanges s0 name args = .ok s' → nestStep s.nesting name = some s'.nesting ∧ s'.ver = true := by
+    intro s0 e1 e2 hasc
+    unfold applyStateChanges at hasc
+    cases hop : opInfo name with
+    | none =>
+      simp only [hop] at hasc
+      cases hsw : applySwitch s0 name args with
+      | error e => simp [hsw] at hasc
+      | ok s1 =>
+        simp only [hsw] at hasc
+        simp at hasc
+        subst hasc
+        obtain ⟨n1, n2⟩ := applySwitch_nest s0 s1 name args e2 hsw
+        rw [e1] at n1
+        exact ⟨by rw [(applyParams_skel s1 name args).2.1]; exact n1, by rw [applyParams_ver]; exact n2⟩
+    | some i =>
+      simp only [hop] at hasc
+      cases hsw : applySwitch { s0 with usable := s0.usable ||| i.sets } name args with
+      | error e => simp [hsw] at hasc
+      | ok s1 =>
+        simp only [hsw] at hasc
+        simp at hasc
+        subst hasc
+        obtain ⟨n1, n2⟩ := applySwitch_nest { s0 with usable := s0.usable ||| i.sets } s1 name args e2 hsw
+        simp only [] at n1
+        rw [e1] at n1
+        refine ⟨?_, ?_⟩
+        · rw [(applyParams_skel _ name args).2.1]; split <;> exact n1
+        · rw [applyParams_ver]; split <;> exact n2
+  unfold applyOperator at h
+  cases hop : opInfo name with
+  | none =>
+    simp only [hop] at h
+    exact key s rfl hv h
+  | some i =>
+    simp only [hop] at h
+    have hasc : applyStateChanges s name args = .ok s' := by
+      repeat' (split at h)
+      all_goals first | exact h | (simp at h)
+    exact key s rfl hv hasc
+
+/-- **Nesting discipline.**  With `Version > 0` (every state the Builder works on) an accepted
+operator sequence is properly nested: replayed on an ordinary stack, every `Q`, `ET`, `EMC`, `EX`
+finds its own opener on top, and the stack reached is the nesting stack of the state. -/
+theorem ver_run_nested (ops : List (Bytes × List Obj)) : ∀ (s s' : St), s.ver = true → run s ops = .ok s' →
+    nested s.nesting ops = some s'.nesting ∧ s'.ver = true := by
+  induction ops with
+  | nil =>
+    intro s s' hv h
+    simp [run] at h
+    subst h
+    exact ⟨rfl, hv⟩
+  | cons op rest ih =>
+    intro s s' hv h
+    obtain ⟨n, a⟩ := op
+    simp only [run] at h
+    cases hstep : applyOperator s n a with
+    | error e => simp [hstep] at h
+    | ok s1 =>
+      simp only [hstep] at h
+      obtain ⟨n1, n2⟩ := step_nested s s1 n a hv hstep
+      obtain ⟨i1, i2⟩ := ih s1 s' n2 h
+      exact ⟨by simp only [nested, n1]; exact i1, i2⟩
+
+/-- **Builder streams are properly nested and balanced.**  For every content type and every
+version `> 0`: an operator sequence accepted from a fresh state, followed by the state's
+`ClosingOperators`, is a properly nested sequence of pairs which leaves nothing open. -/
+theorem ver_closed_nested (ct : Nat) (strict : Bool) (ops : List (Bytes × List Obj)) (s : St)
+    (hrun : run (initSt ct strict true) ops = .ok s) :
+    nested [] (ops ++ (closingOperators s).map fun c => (c, [])) = some [] := by
+  obtain ⟨s', hr, hn, _, _⟩ := closing_balances (initSt ct strict true) s ops (init_inv ct strict true) hrun
+  have := (ver_run_nested _ _ _ (by simp [initSt]) hr).1
+  rw [hn] at this
+  simpa [initSt] using this
+
 /-! ## non-vacuity: concrete accepted sequences with open frames -/
 
 /-- `q BT BMC /x BX` on a PDF 1.7 page: accepted, four frames open, closers `EX EMC ET Q` -/
-example : (match run (initSt 0 true) [([113], []), ([66, 84], []), ([66, 77, 67], [.name [120]]), ([66, 88], [])] with
+example : (match run (initSt 0 true true) [([113], []), ([66, 84], []), ([66, 77, 67], [.name [120]]), ([66, 88], [])] with
     | .ok s => s.nesting == [4, 3, 2, 1] && closingOperators s == [[69, 88], [69, 77, 67], [69, 84], [81]]
     | .error _ => false) = true := by decide +kernel
 
 /-- cross-nested `BT q ET` (PDF 2.0): the q frame survives the ET -/
-example : (match run (initSt 0 false) [([66, 84], []), ([113], []), ([69, 84], [])] with
+example : (match run (initSt 0 false false) [([66, 84], []), ([113], []), ([69, 84], [])] with
     | .ok s => s.nesting == [1] && s.obj == 1
     | .error _ => false) = true := by decide +kernel
 
+/-- the same with `Version > 0` (Builder, PDF 2.0): `ET` does not find `BT` on top — rejected -/
+example : (match run (initSt 0 false true) [([66, 84], []), ([113], []), ([69, 84], [])] with
+    | .ok _ => false
+    | .error e => e == .nomatch) = true := by decide +kernel
+
+/-- `BT BMC ET EMC` with `Version > 0`: rejected; with `Version = 0` (readers) tolerated -/
+example : (match run (initSt 0 true true) [([66, 84], []), ([66, 77, 67], [.name [120]]), ([69, 84], []), ([69, 77, 67], [])],
+      run (initSt 0 false false) [([66, 84], []), ([66, 77, 67], [.name [120]]), ([69, 84], []), ([69, 77, 67], [])] with
+    | .error _, .ok s => s.nesting == []
+    | _, _ => false) = true := by decide +kernel
+
 /-- an open clipping path inside q: closers `n Q` -/
-example : (match run (initSt 0 true) [([113], []), ([109], [.int 0, .int 0]), ([108], [.int 1, .int 1]), ([87], [])] with
+example : (match run (initSt 0 true true) [([113], []), ([109], [.int 0, .int 0]), ([108], [.int 1, .int 1]), ([87], [])] with
     | .ok s => s.obj == 8 && closingOperators s == [[110], [81]]
     | .error _ => false) = true := by decide +kernel
 
